@@ -6,6 +6,7 @@ fail=0
 for d in /verif/seeded/*/; do
   n=$(basename $d)
   checks=$(python3 -c "import json;print(' '.join(sorted({c.split(':')[0] for c in json.load(open('$d/meta.json'))['verif']['caught_by']})))")
+  [ -n "$checks" ] || { echo "$n: meta.json has no verif.caught_by"; fail=1; continue; }
   git -C /repo apply $d/patch.diff || { echo "$n: patch does not apply"; fail=1; continue; }
   for q in $checks; do
     out=$(./check $q 2>&1); rc=$?
